@@ -155,7 +155,7 @@ def run_unit(unit):
 def plan(tier, seed=0):
     units = []
     depth = 3 if tier == 'thorough' else 2
-    cap = 20000 if tier == 'thorough' else 500
+    cap = 2500 if tier == 'thorough' else 500
     for name, text in seeds.seeds(tier, seed):
         generated = '-gen' in name or '-not' in name
         units.append((name, text, 'depth', 'inc', depth, cap * 4))
